@@ -49,7 +49,7 @@ def _present(pid):
 class C20(PropertyCheck):
     id = "C20"
     title = "Routines never corrupt caller data or touch memory outside their arrays"
-    lean_modules = ["NipyVerif.Props.C20", "NipyVerif.Props.C20B"]
+    lean_modules = ["NipyVerif.Props.C20", "NipyVerif.Props.C20B", "NipyVerif.Props.C20F"]
     driver = "Drivers/C20.lean"
     rule = ("index cases: random shapes/strides/multi-indices (distinct by JSON, non-trivial = ndim >= 2 or a "
             "negative stride); probe cases: routine x size {6,1,0} x layout {C,F,strided,reversed,readonly,bigendian,"
@@ -60,7 +60,11 @@ class C20(PropertyCheck):
             "fff_array iterator over transposed/strided/axis-skipping views: "
             "singleton and empty axes, masks on every face/edge/corner, coordinates at, just inside and just outside each "
             "bound, 1e300/inf/nan, NaN/inf/tied data, strided/reversed/Fortran layouts) on sentinel-padded buffers, each "
-            "batch also under ASan+UBSan; guards cases: one per glue wrapper, every validated fact broken in turn")
+            "batch also under ASan+UBSan; guards cases: one per glue wrapper, every validated fact broken in turn; ivx cases: "
+            "EC3d/Lips3d/EC2d/Lips2d run from the .pyx text (de-cythonised) on masks with axes in {0,1,2,3,4}, all-ones / random / "
+            "zero, C / F / strided / read-only, every subscript of the padded mask recorded; cnb cases: Field over random edge "
+            "lists (V in 1..6, 0..9 edges, self-loops and parallel edges), compact_neighb + the de-cythonised dilation with "
+            "every subscript of idx / neighb / field recorded")
     assumptions = [
         "caller-data immutability is a clause of the refinement relation (the model is pure); it is checked on every "
         "generated case, not proved; a mutation is a violation unless the routine's docstring documents in-place "
@@ -73,6 +77,19 @@ class C20(PropertyCheck):
         "iterator increments and updaters) Lean proves 'guard passed => every address read or written is inside "
         "the array' for all dimensions, strides, positions; C integers are modelled as unbounded Int (no overflow), "
         "doubles as exact rationals (NaN/inf only through the searched stream)",
+        "memory safety, proved part (wave 4, Props/C20F): frame theorems on the store side of the model — ve_step changes "
+        "only the K entries of the rows of the voxels listed in XYZ (ve_step_frame, stores in bounds when the voxels are in "
+        "the grid), the joint histogram changes only row i of H (jh_frame); the complete scan of a fff_array iterator "
+        "(init_skip_axis, then the updater selected by ndims, `count` times) only dereferences elements of the array, for "
+        "all dims >= 1, all byte offsets and any skipped axis (fff_scan_in_array); the axis normalisation of "
+        "fffpy_multi_iterator_new; the padded-mask subscripts of intvol.pyx EC3d/Lips3d/EC2d/Lips2d and the idx / neighb / "
+        "field subscripts of _graph.pyx::dilation over compact_neighb, on expressions regenerated from the .pyx / .py / .c "
+        "text (Gen/C20Pyx.lean)",
+        "intvol.pyx: that the offset tables d2/d3/d4 (built by cube_with_strides_center / join_complexes / _convert_stride*) "
+        "only hold sums of a subset of the strides is not proved: it is tied by the `ivsub` / `ivall` correspondence (every "
+        "recorded subscript must be one of the 8 (4) corners the model allows; EC3d/EC2d on an all-ones mask must read exactly "
+        "their union); dilation: `edges < V` is the class invariant of Graph (checked by its constructor), a hypothesis of "
+        "dilation_in_bounds",
         "memory safety, hypothesis part: the facts of `frontEndOnly` (Model/C20K.lean; e.g. XYZ rows inside the grid, "
         "ref/U/Tvox sizes, image intensities below the histogram clamps, padded image dims >= 2, dtype of the arrays "
         "given to _cspline_sample*/_joint_histogram, ngb_size in {6, 26} for the private _ve_step/_make_edges/"
@@ -89,12 +106,19 @@ class C20(PropertyCheck):
     ]
     level_note = ("PARTIAL by nature. Proved (for all inputs): bounds of the index/guard expressions regenerated from the "
                   "C text of mrf.c, joint_histogram.c, cubic_spline.c (sampling path, 1-d filter walks), quantile.c (index "
-                  "selection), fff_array.c (iterator invariant), the "
-                  "generic row-major / strided-view / padded-corner arithmetic, the exactness of the list of unvalidated "
-                  "preconditions, the mutation verdict. Hypotheses: the front-end-only preconditions, no integer overflow. "
-                  "Searched only: actual loads/stores of the compiled code (sentinel buffers, ASan/UBSan), data-dependent "
-                  "loops (quantile partition), hangs and crashes (isolated child processes), caller-data immutability of "
-                  "every routine (snapshots), .pyx binaries.")
+                  "selection), fff_array.c (iterator invariant AND the whole scan: every dereferenced offset is an element of the "
+                  "array), fffpy.c (negative axis), and from the .pyx text of intvol (padded-mask corners) and _graph.dilation "
+                  "(over compact_neighb); frame theorems for ve_step (only the rows of XYZ change) and the joint histogram "
+                  "(only row i of H changes); the generic row-major / strided-view / padded-corner arithmetic, the exactness of "
+                  "the list of unvalidated preconditions, the mutation verdict. Hypotheses: the front-end-only preconditions, no "
+                  "integer overflow, Graph's class invariant edges < V. Modelled and compared, no theorem: the contents of "
+                  "intvol's offset tables d2/d3/d4 (Python set algebra over simplices; the tie is the recorded-subscript "
+                  "correspondence). Searched only, and why: actual loads/stores of the compiled code (sentinel buffers, "
+                  "ASan/UBSan — a statement about the compiler's output, not about the text); the data-dependent partition "
+                  "loops of quantile.c (_pth_element/_pth_interval: in-bounds needs the sentinel invariant x[il] <= a <= x[jr] "
+                  "through the swap protocol and the same_extremities escape, not carried to Lean in this round); polyaffine.c; "
+                  "hangs and crashes (isolated child processes); caller-data immutability of every routine (snapshots: a "
+                  "quantifier over all public routines, only the verdict is a theorem); .pyx binaries (cannot be rebuilt).")
 
     # ------------------------------------------------------------------
     def translators(self):
@@ -102,8 +126,9 @@ class C20(PropertyCheck):
         from harness.props import c20_kern, c20_kernels
         from harness.props import c20_inplace
         from harness.props import c20_guards
+        from harness.props import c20_pyx
         out = (c20_kern.translate(REPO, TieBroken) + c20_inplace.translate(REPO, TieBroken)
-               + c20_guards.translate(REPO, TieBroken))
+               + c20_guards.translate(REPO, TieBroken) + c20_pyx.translate(REPO, TieBroken))
         try:
             c20_kernels.prebuild()       # once, in the parent: workers / child runners then only dlopen
         except Exception as e:
@@ -128,6 +153,20 @@ class C20(PropertyCheck):
             cases.append({"kind": "kbatch", "seed": seed, "n": per, "san": False})
             if os.environ.get("VERIF_NO_ASAN") != "1":
                 cases.append({"kind": "kbatch", "seed": seed, "n": per, "san": True})
+        # .pyx index arithmetic: intvol kernels (text of the .pyx executed by the de-cythoniser, every subscript of the
+        # padded mask recorded) and dilation over compact_neighb
+        for _ in range(48 if quick else 600):
+            fn = rng.choice(["EC3d", "EC3d", "Lips3d", "EC2d", "Lips2d"])
+            nd = 3 if fn.endswith("3d") else 2
+            shape = [rng.choice([0, 1, 1, 2, 2, 3, 4]) for _ in range(nd)]
+            cases.append({"kind": "ivx", "fn": fn, "shape": shape, "mask": rng.choice(["ones", "ones", "random", "zeros"]),
+                          "layout": rng.choice(["C", "F", "strided", "readonly"]), "seed": rng.randrange(10 ** 6)})
+        for _ in range(40 if quick else 500):
+            V = rng.choice([1, 2, 3, 4, 6])
+            E = rng.choice([0, 1, 2, 5, 9])
+            cases.append({"kind": "cnb", "V": V, "dim": rng.choice([1, 1, 2, 3]),
+                          "edges": [[rng.randrange(V), rng.randrange(V)] for _ in range(E)],
+                          "nbiter": rng.choice([1, 1, 2]), "seed": rng.randrange(10 ** 6)})
         # index stream
         for _ in range(150 if quick else 3000):
             nd = rng.choice([1, 2, 2, 3, 3, 4])
@@ -221,6 +260,102 @@ class C20(PropertyCheck):
         fail = None if via == obs and obs < int(np.prod(s)) else "padded corner index differs from row-major index"
         line = "corner " + " ".join(map(str, s + [i, j, k, di, dj, dk]))
         return {"lines": [line], "impl": [str(via)], "oracle": fail, "nontrivial": True, "tags": ["corner"]}
+
+    def _ivx(self, c):
+        """an intvol kernel, run from the current text of the .pyx, with every subscript of `fpmask` recorded"""
+        iv, rec = _intvol()
+        shape = tuple(c["shape"])
+        rs = np.random.RandomState(c["seed"])
+        m0 = {"ones": np.ones(shape, np.uint8), "zeros": np.zeros(shape, np.uint8),
+              "random": (rs.rand(*shape) < 0.6).astype(np.uint8)}[c["mask"]]
+        if c["layout"] == "F":
+            mask = np.asfortranarray(m0)
+        elif c["layout"] == "strided":
+            big = np.zeros(tuple(2 * s for s in shape), np.uint8)
+            mask = big[tuple(slice(None, None, 2) for _ in shape)]
+            mask[...] = m0
+        else:
+            mask = m0.copy()
+        if c["layout"] == "readonly":
+            mask.setflags(write=False)
+        coords = np.indices(shape).astype(float)
+        from harness.util import Snapshot
+        snap = Snapshot(mask=mask, coords=coords)
+        del rec[:]
+        f = getattr(iv, c["fn"])
+        exc = None
+        try:
+            f(mask) if c["fn"].startswith("EC") else f(coords, mask)
+        except Exception as e:
+            exc = type(e).__name__
+        seen = sorted(set(rec))
+        size = int(np.prod([s + 1 for s in shape]))
+        fail = None
+        if any(q < 0 or q >= size for q in seen):
+            fail = (f"{c['fn']} on a mask of shape {shape}: subscripts {[q for q in seen if q < 0 or q >= size][:6]} of the padded "
+                    f"flat mask (size {size}) are outside it (boundscheck is off in the compiled kernel)")
+        if exc == "IndexError" and fail is None:       # NumPy's bounds check of the de-cythonised run: the compiled kernel has none
+            fail = (f"{c['fn']} on a mask of shape {shape} forms a subscript beyond the padded flat mask (size {size}); "
+                    f"boundscheck is off in the compiled kernel")
+        mut = snap.changed()
+        if mut and fail is None:
+            fail = f"{c['fn']} modified its argument '{mut}'"
+        ms = f"{len(shape)} {' '.join(map(str, shape))}"
+        lines = [f"ivsub {ms} {len(seen)} {' '.join(map(str, seen))}".rstrip()]
+        impl = ["subset"]
+        if exc is None and c["mask"] == "ones" and c["fn"].startswith("EC"):
+            lines.append(f"ivall {ms}")
+            impl.append(" ".join(map(str, seen)))
+        return {"lines": lines, "impl": impl, "oracle": fail, "mutated": mut if fail else None,
+                "nontrivial": min(shape) >= 1, "tags": ["ivx", "ivx=" + c["fn"], "mask=" + c["mask"], "layout=" + c["layout"],
+                                                        "empty-axis" if 0 in shape else "singleton-axis" if 1 in shape else "axes>1",
+                                                        "refused:" + exc if exc else "accepted"]}
+
+    def _cnb(self, c):
+        """WeightedGraph.compact_neighb and the subscripts `_graph.pyx::dilation` (current text, de-cythonised) forms from it"""
+        gp, rec = _graphpyx()
+        from nipy.algorithms.graph.field import Field
+        V, E = c["V"], len(c["edges"])
+        rs = np.random.RandomState(c["seed"])
+        edges = np.array(c["edges"], dtype=np.intp).reshape(E, 2)
+        fld = rs.randint(-8, 9, size=(V, c["dim"])).astype(float)
+        try:
+            F = Field(V, edges, np.ones(E), fld.copy())
+        except Exception as e:
+            return {"lines": [], "impl": [], "oracle": None, "nontrivial": False, "tags": ["cnb", "cnb-refused:" + type(e).__name__]}
+        from harness.util import Snapshot
+        snap = Snapshot(edges=edges)
+        fail, lines, impl = None, [], []
+        if E > 0:
+            idx, neighb, _ = F.compact_neighb()
+            order = np.argsort(edges[:, 0], kind="stable")
+            lines.append(f"cnb {V} {E} {' '.join(map(str, edges[order, 0]))} {E} {' '.join(map(str, neighb))}")
+            impl.append(f"{' '.join(map(str, idx))} | ok {E}")
+            del rec[:]
+            data = np.ascontiguousarray(F.field.reshape(V, -1), dtype=float)
+            try:
+                for _ in range(c["nbiter"]):
+                    gp.dilation(data, idx, neighb)
+            except Exception as e:
+                fail = f"_graph.dilation raised {type(e).__name__} on the arrays of compact_neighb: {e}"
+            bad = [(nm, q) for nm, q, n in rec if q < 0 or q >= n]
+            if bad and fail is None:
+                fail = (f"_graph.dilation on V={V}, edges={c['edges']}: subscript {bad[0][1]} of `{bad[0][0]}` is outside the array "
+                        f"(boundscheck is off in the compiled kernel)")
+            # the value: max over the closed neighbourhood, iterated
+            want = fld.copy()
+            for _ in range(c["nbiter"]):
+                nxt = want.copy()
+                for a, b in c["edges"]:
+                    nxt[a] = np.maximum(nxt[a], want[b])
+                want = nxt
+            if fail is None and not np.array_equal(data, want):
+                fail = f"_graph.dilation on V={V}, edges={c['edges']} is not the neighbourhood maximum"
+        mut = snap.changed()
+        if mut and fail is None:
+            fail = f"compact_neighb / dilation modified '{mut}'"
+        return {"lines": lines, "impl": impl, "oracle": fail, "mutated": mut if fail else None, "nontrivial": E > 0,
+                "tags": ["cnb", "edges=0" if E == 0 else "edges>0", "V=1" if V == 1 else "V>1", f"dim={c['dim']}"]}
 
     def _probe(self, c):
         from harness.props import c20_probes as P
@@ -425,6 +560,48 @@ class C20(PropertyCheck):
 
     def key_of(self, case):
         return json.dumps(case, sort_keys=True, default=str)
+
+
+_PYX = {}
+
+
+class _Recorder:
+    pass
+
+
+def _rec_module(rel, names):
+    """the de-cythonised module of `rel` whose typed buffers `names` record every scalar subscript"""
+    if rel not in _PYX:
+        import harness.decython as D
+        mod = D.load_pyx(rel)
+        rec = []
+        orig = mod._cbuf
+
+        def make(nm):
+            class Rec(D._CBuf):
+                def __getitem__(self, i):
+                    if isinstance(i, (int, np.integer)):
+                        rec.append(int(i) if names == ("fpmask",) else (nm, int(i), self.shape[0]))
+                    elif isinstance(i, tuple) and i and isinstance(i[0], (int, np.integer)):
+                        rec.append((nm, int(i[0]), self.shape[0]))
+                    return super().__getitem__(i)
+            return Rec
+        classes = {nm: make(nm) for nm in names}
+
+        def cbuf(v, dtype, ndim, name="buffer"):
+            r = orig(v, dtype, ndim, name)
+            return r.view(classes[name]) if (name in classes and r is not None) else r
+        mod._cbuf = cbuf
+        _PYX[rel] = (mod, rec)
+    return _PYX[rel]
+
+
+def _intvol():
+    return _rec_module("nipy/algorithms/statistics/intvol.pyx", ("fpmask",))
+
+
+def _graphpyx():
+    return _rec_module("nipy/algorithms/graph/_graph.pyx", ("idx", "neighb", "field"))
 
 
 _COMPILED = {}
